@@ -74,3 +74,20 @@ claim('C11', 'Lean 4 proofs (value bytes mod 2^(8w) in byte order, escape proces
       'terminator; .fill emits n copies of the low byte; .zerountil zeros up to and including its target. Each run compares the image '
       'of the real CLI with the model on data-directive programs (strings with escapes and both quote kinds, all terminators).',
       NOTE + ' unicode_escape decoding is modelled for the listed escapes only; finding D30 (value list starting with a quote) is outside the generated language.')
+
+claim('C09', 'Lean 4 refinement proof (candidate-scan / recursive resolution / re-scan algorithm = whole-word full expansion) + metamorphic differential correspondence',
+      'Kernel-checked theorems: the substitution algorithm of the code computes exactly the whole-word full expansion for every '
+      'table and line (incl. error kinds; fuel never exhausted); the expansion contains no defined symbol; lines without a defined '
+      'whole word (identifiers that merely contain a symbol name, undefined words, non-word text) are returned verbatim; a symbol '
+      'leading back to itself is rejected when used; a second definition is rejected; each line is expanded with the table as of '
+      'that line. Each run checks on the real CLI that a program with symbols (ISA, -D and #define sources) assembles to the same '
+      'image as the program whose lines were expanded by the model, or that both are rejected.',
+      NOTE + ' Symbol names have >= 2 characters; substitution inside quoted strings is not generated.')
+claim('C17', 'Lean 4 proofs (fresh file scope, double/missing include rejected, includer state continues, payload pasting, order-free directory search) + differential and metamorphic correspondence',
+      'Kernel-checked theorems: every line read from a file carries that file\'s own scope; a file opened twice or missing is '
+      'rejected; after a selected #include the includer continues with unchanged region, zone, mute depth and condition stack, an '
+      'unselected #include has no effect; including a payload-only file yields exactly the lines of the pasted text; the directory '
+      'search accepts exactly one hit independently of directory order and de-duplication keeps one entry per real path. Each run '
+      'compares split programs (nested includes, several include directories, symlinks) with the model and, for scope-neutral '
+      'programs, the split image with the unsplit image on the real CLI.',
+      NOTE + ' os.path.exists/realpath are parameters of the model.')
